@@ -47,7 +47,8 @@ fn check(which: Which, ex: &Ex, pts: &[(Vars, Memo)]) -> Vec<(String, String)> {
                         let ex2 = Ex::from_expr(&e2);
                         let mut compared = 0;
                         set_label(if ex2 == *ex { "reparsed-identical-structure" } else { "reparsed-different-structure" });
-                        for (v, m) in pts {
+                        let special = special_points();
+                        for (v, m) in pts.iter().chain(special.iter()) {
                             if gev(ex, v, m).is_none() || gev(&ex2, v, m).is_none() {
                                 continue;
                             }
@@ -91,8 +92,23 @@ fn check(which: Which, ex: &Ex, pts: &[(Vars, Memo)]) -> Vec<(String, String)> {
                 if a1.iter().any(|x| !a0.contains(x)) {
                     out.push(("new-memory-reference".to_string(), format!("simplified form {} has references {:?}", sx.show(), a1)));
                 }
-                for (v, m) in pts {
-                    if gev(ex, v, m).is_none() || gev(&sx, v, m).is_none() {
+                // the generic points, then assignments that make sub-expressions vanish or coincide with
+                // literal leaves (all 0; all 1; x = 2.5, y = -1): the statement quantifies over every
+                // assignment at which the original is finite, and a rewrite such as 0^e -> 0 is wrong
+                // exactly where e vanishes
+                let special = special_points();
+                for (v, m) in pts.iter().chain(special.iter()) {
+                    if gev(ex, v, m).is_none() {
+                        continue;
+                    }
+                    if gev(&sx, v, m).is_none() {
+                        // degenerate for the simplified tree: only a non-finite real value is a verdict
+                        if let (Some(a), Some(b)) = (real_eval(&e, v, m), real_eval(&s, v, m)) {
+                            if a.is_finite() && !b.is_finite() {
+                                out.push(("value".to_string(), format!("simplifies to {} = {b} (not finite), original = {a}", sx.show())));
+                                break;
+                            }
+                        }
                         continue;
                     }
                     if let (Some(a), Some(b)) = (real_eval(&e, v, m), real_eval(&s, v, m)) {
@@ -188,6 +204,13 @@ fn check(which: Which, ex: &Ex, pts: &[(Vars, Memo)]) -> Vec<(String, String)> {
     out
 }
 
+fn special_points() -> Vec<(Vars, Memo)> {
+    let mk = |x: f64, y: f64, a: [f64; 2], b: [f64; 2]| -> (Vars, Memo) {
+        ([("x".to_string(), C::new(x, 0.0)), ("y".to_string(), C::new(y, 0.0))].into(), [("a".to_string(), a.to_vec()), ("b".to_string(), b.to_vec())].into())
+    };
+    vec![mk(0.0, 0.0, [0.0, 0.0], [0.0, 0.0]), mk(1.0, 1.0, [1.0, 1.0], [1.0, 1.0]), mk(2.5, -1.0, [-1.0, 2.5], [2.5, 0.0])]
+}
+
 fn id_of(w: Which) -> &'static str {
     match w {
         Which::C03 => "C03",
@@ -210,14 +233,26 @@ fn eval_case(ctx: &mut Ctx, which: Which, ex: &Ex, pts: &[(Vars, Memo)], shrinks
         if !seen.insert(clause.clone()) {
             continue;
         }
-        let did = *shrinks < 3000;
+        let did = *shrinks < if which == Which::C12 { 200_000 } else { 3000 };
         let small = if did {
             *shrinks += 1;
             shrink(ex.clone(), &|c: &Ex| check(which, c, pts).iter().any(|(cl, _)| *cl == clause))
         } else {
             ex.clone()
         };
-        let fp = if did { format!("{id}:{clause}:{}", small.normalised().show()) } else { format!("{id}:{clause}:(unshrunk)") };
+        let mut fp = if did { format!("{id}:{clause}:{}", small.normalised().show()) } else { format!("{id}:{clause}:(unshrunk)") };
+        if which == Which::C12 && clause == "value" && did {
+            // the one rewrite the baseline suite pins although it changes a finite value: 0^e -> 0,
+            // wrong exactly where e evaluates to 0 (0^0 = 1).  Structural class: the 1-minimal
+            // witness is a power with literal base 0 and the simplifier returned the number 0.
+            if let Ex::In(op, l, r) = &small {
+                let is_pow = *op == 0;
+                let folded = matches!(Ex::from_expr(&small.to_expr().into_simplified()), Ex::Num(re, im) if re == 0.0 && im == 0.0);
+                if is_pow && folded && matches!(**l, Ex::Num(re, im) if re == 0.0 && im == 0.0) && !matches!(**r, Ex::Num(..)) {
+                    fp = format!("{id}:value:zero-base-power-folded-to-0");
+                }
+            }
+        }
         ctx.report(viol(&clause, fp, json!({"expr": small}), format!("{}: {detail}", ex.show())));
     }
 }
@@ -301,7 +336,7 @@ pub static C03: PropDef = PropDef {
     id: "C03",
     level: "exploration",
     engine: "sweep",
-    rule: "every expression tree of depth <= 2 over leaves {0,1,-1,2.5,1+2i,-2i,pi,%x,%y,a[0],b[1]}, the 5 functions, prefix -/+ and the 5 infix operators, built through the public constructors (2.4 M trees); thorough adds a reduced-alphabet depth-3 layer. Each is printed, parsed back and both are evaluated at 3 generic points. non-trivial = non-leaf tree, distinct by structure",
+    rule: "every expression tree of depth <= 2 over leaves {0,1,-1,2.5,1+2i,-2i,pi,%x,%y,a[0],b[1]}, the 5 functions, prefix -/+ and the 5 infix operators, built through the public constructors (2.4 M trees); thorough adds a reduced-alphabet depth-3 layer. Each is printed, parsed back and both are evaluated at 3 generic points and 3 special ones (all 0; all 1; x = 2.5, y = -1, i.e. values colliding with literal leaves). non-trivial = non-leaf tree, distinct by structure",
     assumptions: ASSUME,
     run: |ctx| sweep(ctx, Which::C03),
     replay: |c| replay(Which::C03, c),
@@ -311,7 +346,7 @@ pub static C12: PropDef = PropDef {
     id: "C12",
     level: "exploration",
     engine: "sweep",
-    rule: "every expression tree of depth <= 2 over the same alphabet as C03 (2.4 M trees; thorough adds reduced depth 3); each is simplified by the real simplifier and original and result are evaluated at 3 generic points (tolerance 1e-9 mixed), plus: no new variables / references, no pi, simplify() == into_simplified(). non-trivial = non-leaf tree",
+    rule: "every expression tree of depth <= 2 over the same alphabet as C03 (2.4 M trees; thorough adds reduced depth 3); each is simplified by the real simplifier and original and result are evaluated at 3 generic points and 3 special ones (all 0; all 1; x = 2.5, y = -1) wherever the original is finite and well-conditioned (tolerance 1e-9 mixed; a non-finite result where the original is finite is a violation), plus: no new variables / references, no pi, simplify() == into_simplified(). non-trivial = non-leaf tree",
     assumptions: ASSUME,
     run: |ctx| sweep(ctx, Which::C12),
     replay: |c| replay(Which::C12, c),
